@@ -886,6 +886,14 @@ class TextXVisitor(RRELVisitor):
                 elif repeat_op == "+":
                     rule = OneOrMore(nodes=[expr])
                 else:
+                    if not isinstance(expr, Sequence):
+                        line, col = self.grammar_parser.pos_to_linecol(node.position)
+                        raise TextXSyntaxError(
+                            'Unordered group operator "#" must be applied to '
+                            f"a sequence or an ordered choice at {(line, col)}",
+                            line,
+                            col,
+                        )
                     rule = UnorderedGroup(nodes=expr.nodes)
 
                 if modifiers:
